@@ -284,11 +284,17 @@ fn minimise(mut best: Trace, prop: &str, key: &str, scratch: &Path) -> (Trace, u
                 }
             }
             // 4. knobs
-            for which in 0..5 {
+            for which in 0..6 {
                 let mut c = best.clone();
                 let r = &mut c.runs[ri];
                 match which {
                     4 => r.knobs.repeat = 1,
+                    5 => {
+                        if key.starts_with("I1:abort") {
+                            continue; // the guard pages may be what turns the stray access into a fault
+                        }
+                        r.knobs.guard = 0;
+                    }
                     0 => {
                         r.sched.clear();
                         r.knobs.preempt = 0;
